@@ -10,6 +10,7 @@ AbbrWrap.tla : every list of wrap lines over 17 line atoms x 18 abbreviation tem
 import zlib
 
 import common
+import grammar
 import project_html as ph
 
 NONE = '<none>'
@@ -185,9 +186,15 @@ def run(out):
         ks = sorted(vecs, key=lambda a: zlib.crc32(repr(a).encode()))
         for k in ks[:2]:
             out.sample({'abbr': k[0], 'lines': list(k[1]), 'expected': [[e['d'], e['n'], e['title'], e['text']] for e in vecs[k]['out']]})
+    # ---- grammar-level differential: tokenizer + parser + convert() of the specification against abbreviation.parse()
+    gq = dict(NameFr={"x", ""}, ModFr={"{t}", "{a>b+c}", "{aBS}b{c}d}", "{${1:p} q}", "{$# $$}", "{BSBS*[=]}", ".c", "{ sp }"}, RepFr={"*2", "*"},
+              OpFr={">", "+", "^"}, MaxGroups=1, MaxMods=2)
+    grammar.differential(out, 'grammar-text', dict(gq, MaxFrag=5 if quick else 7), ('d', 'name', 'text'), 'text-verbatim (node tree of abbreviation.parse)')
 
 
 def replay(case):
+    if 'compared' in case.get('case', {}):
+        return grammar.replay(case)
     import emmet
     c = case['case']
     if 'payload' in c:
